@@ -1299,10 +1299,6 @@ reply_parse(struct evdns_base *base, u8 *packet, int length)
 
 	/* If it's not an answer, it doesn't correspond to any request. */
 	if (!(flags & _QR_MASK)) return -1;  /* must be an answer */
-	if ((flags & (_RCODE_MASK|_TC_MASK)) && (flags & (_RCODE_MASK|_TC_MASK)) != DNS_ERR_NOTEXIST) {
-		/* there was an error and it's not NXDOMAIN */
-		goto err;
-	}
 	/* if (!answers) return; */  /* must have an answer of some form */
 
 	/* This macro skips a name in the DNS reply. */
@@ -1341,8 +1337,17 @@ reply_parse(struct evdns_base *base, u8 *packet, int length)
 			goto err;
 	}
 
-	if (!name_matches)
+	/* A reply that is about some other name says nothing about this
+	 * request, whatever its id: ignore it, the request stays in flight.
+	 * Only an error reply may come without its question section. */
+	if (!name_matches &&
+	    (questions || !(flags & (_RCODE_MASK|_TC_MASK))))
+		return -1;
+
+	if ((flags & (_RCODE_MASK|_TC_MASK)) && (flags & (_RCODE_MASK|_TC_MASK)) != DNS_ERR_NOTEXIST) {
+		/* there was an error and it's not NXDOMAIN */
 		goto err;
+	}
 
 	/* We can allocate less for the reply data, but to do it we'll have
 	 * to parse the response. To simplify things let's just allocate
